@@ -63,13 +63,26 @@ func interestingOffsets(c *Ctx, b []byte, extra int) []int {
 			set[x] = true
 		}
 	}
-	for i := 0; i <= 15; i++ {
-		add(i)
-	}
-	for _, e := range recordBoundaries(b) {
-		add(e - 1)
-		add(e)
-		add(e + 1)
+	// every file of a chain: its header bytes, its record boundaries, its CRC
+	for start := 0; start+14 <= len(b); {
+		m := b[start:]
+		for i := 0; i <= 15; i++ {
+			add(start + i)
+		}
+		for _, e := range recordBoundaries(m) {
+			add(start + e - 1)
+			add(start + e)
+			add(start + e + 1)
+		}
+		hs := int(m[0])
+		flen := hs + int(uint32(m[4])|uint32(m[5])<<8|uint32(m[6])<<16|uint32(m[7])<<24) + 2
+		if (hs != 12 && hs != 14) || flen <= 0 || start+flen > len(b) {
+			break
+		}
+		for i := 0; i < 4; i++ {
+			add(start + flen - i)
+		}
+		start += flen
 	}
 	for k := 4096; k < len(b); k += 4096 {
 		hs := int(b[0])
